@@ -2,8 +2,11 @@
 
 Recipe (JSON-able):
   {"dims": [2,2,3], "qkind": "line"|"grid"|"named"|"mixed", "names": [2,0,1],
-   "ops": [{"g": [family, params], "w": [wire indices], "ins": 0..3, "tag": bool?}, ...],
+   "ops": [{"g": [family, params], "w": [wire indices], "ins": 0..3, "tag": bool?,
+            "ctl": {"w": [control wires], "v": [[enabled levels] per control], "sop": [[level per control] rows]?}?}, ...],
    "empties": [positions of explicit empty moments]}
+(``wrappers=True`` only: "tag", "ctl" - op.controlled_by(controls, control_values=ProductOfSums v | SumOfProducts sop) - and the
+qudit power gates QuditXPow / QuditZPow = cirq.XPowGate / ZPowGate(exponent, global_shift, dimension).)
 Wire i is the qubit ``qubit_for(recipe, i)``; ``names`` is a permutation so that sorted order of the
 qubits differs from wire order.
 """
@@ -53,16 +56,58 @@ def _gate_for_wires(pred):
     pass
 
 
+QUDIT_POW = {"QuditXPow": "XPowGate", "QuditZPow": "ZPowGate"}
+
+
 @st.composite
-def op_on(draw, dims, pred, max_arity=3):
+def _controls(draw, dims, used):
+    """Controls on wires the operation does not use: any non-empty subset of levels per control (ProductOfSums), or a
+    non-empty set of rows (SumOfProducts)."""
+    free = [i for i in range(len(dims)) if i not in used]
+    k = draw(st.integers(1, min(2, len(free))))
+    w = list(draw(st.permutations(free)))[:k]
+    v = []
+    for i in w:
+        d = dims[i]
+        lv = [x for x in range(d) if draw(st.booleans())]
+        if not lv:
+            lv = [draw(st.integers(0, d - 1))]
+        if draw(st.integers(0, 3)) == 0:
+            lv = list(draw(st.permutations(lv)))  # unsorted input
+        v.append(lv)
+    ctl = {"w": w, "v": v}
+    if draw(st.integers(0, 3)) == 0:
+        rows = draw(st.lists(st.tuples(*[st.integers(0, dims[i] - 1) for i in w]), min_size=1, max_size=4, unique=True))
+        ctl["sop"] = [list(x) for x in rows]
+    return ctl
+
+
+@st.composite
+def op_on(draw, dims, pred, max_arity=3, wrappers=False):
     """One operation recipe {"g":..., "w":[...]} on a register with ``dims``; qudit-aware."""
+    o = draw(_bare_op_on(dims, pred, max_arity, wrappers))
+    if wrappers:
+        if len(o["w"]) < len(dims) and draw(st.integers(0, 3)) == 0:
+            o["ctl"] = draw(_controls(dims, o["w"]))
+        if draw(st.integers(0, 7)) == 0:
+            o["tag"] = True
+    return o
+
+
+@st.composite
+def _bare_op_on(draw, dims, pred, max_arity=3, wrappers=False):
     n = len(dims)
     G._lazy()
     qubit_wires = [i for i, d in enumerate(dims) if d == 2]
     qudit_wires = [i for i, d in enumerate(dims) if d != 2]
     use_qudit = bool(qudit_wires) and (not qubit_wires or draw(st.integers(0, 2)) == 0)
     if use_qudit:
-        kind = draw(st.sampled_from(["QuditMatrix", "QuditPlus", "QuditIdentity", "QuditMatrix2"]))
+        kind = draw(st.sampled_from(["QuditMatrix", "QuditPlus", "QuditIdentity", "QuditMatrix2"] + (list(QUDIT_POW) * 2 if wrappers else [])))
+        if kind in QUDIT_POW:
+            w = draw(st.sampled_from(qudit_wires))
+            d = dims[w]
+            e = draw(st.one_of(st.sampled_from([1, 2, 3, -1, -2, 0.5, -0.5, 0.25, 1.5, 2.5, -1.5, d, -d, d + 1, 0, 2 / d, 1 / d]), G.exponents()))
+            return {"g": [kind, {"d": d, "e": e, "s": draw(G.shifts())}], "w": [w]}
         if kind == "QuditMatrix2" and n >= 2:
             w = draw(st.permutations(list(range(n))))[:2]
             dd = [dims[w[0]], dims[w[1]]]
@@ -85,12 +130,12 @@ def op_on(draw, dims, pred, max_arity=3):
 
 @st.composite
 def circuit_recipes(draw, pred=lambda f: f.unitary and not f.qudit, min_w=1, max_w=4, max_ops=10, qudits=False,
-                    min_ops=0, max_arity=3):
+                    min_ops=0, max_arity=3, wrappers=False):
     r = draw(wires(min_w, max_w, qudits))
     nops = draw(st.integers(min_ops, max_ops))
     ops = []
     for _ in range(nops):
-        o = draw(op_on(r["dims"], pred, max_arity))
+        o = draw(op_on(r["dims"], pred, max_arity, wrappers))
         o["ins"] = draw(st.sampled_from([0, 0, 0, 1, 2, 3]))
         ops.append(o)
     r["ops"] = ops
@@ -98,12 +143,37 @@ def circuit_recipes(draw, pred=lambda f: f.unitary and not f.qudit, min_w=1, max
     return r
 
 
+def _ctl_ok(recipe, o, ctl):
+    try:
+        dims = recipe["dims"]
+        w = ctl["w"]
+        if not w or len(set(w)) != len(w) or set(w) & set(o["w"]) or any(not 0 <= i < len(dims) for i in w):
+            return False
+        if ctl.get("sop"):
+            return all(len(row) == len(w) and all(0 <= x < dims[i] for x, i in zip(row, w)) for row in ctl["sop"])
+        return len(ctl["v"]) == len(w) and all(v and all(0 <= x < dims[i] for x in v) for v, i in zip(ctl["v"], w))
+    except (KeyError, TypeError):
+        return False
+
+
 def build_op(recipe, o):
     import cirq
 
-    g = G.build_gate(o["g"])
+    if o["g"][0] in QUDIT_POW:
+        p = o["g"][1]
+        g = getattr(cirq, QUDIT_POW[o["g"][0]])(exponent=p["e"], global_shift=p.get("s", 0.0), dimension=p["d"])
+    else:
+        g = G.build_gate(o["g"])
     qs = [qubit_for(recipe, i) for i in o["w"]]
     op = g.on(*qs)
+    ctl = o.get("ctl")
+    if _ctl_ok(recipe, o, ctl):  # (a minimised recipe may carry a mutilated control spec: then the op is left uncontrolled)
+        cq = [qubit_for(recipe, i) for i in ctl["w"]]
+        if ctl.get("sop"):
+            cv = cirq.SumOfProducts([tuple(row) for row in ctl["sop"]])
+        else:
+            cv = [tuple(v) for v in ctl["v"]]
+        op = op.controlled_by(*cq, control_values=cv)
     if o.get("tag"):
         op = op.with_tags("vf_tag")
     return op
